@@ -117,9 +117,15 @@ def gen_dataset(rng, with_seq=True, ambiguous=False, strings=True, nested=True):
     return {"name": rng.choice(["d", "d", "data", "a1"]), "vars": vars_}
 
 
+def held_as_bytes(b):
+    """every third String array is held as numpy dtype S (what files and pydap's own parsers deliver); a function of the case"""
+    return b["dt"] == "U" and zlib.crc32(repr((b["name"], b["data"][:4])).encode()) % 3 == 0
+
+
 def base_sexp(b):
-    return "(b %s %s (%s) (%s) (%s))" % (hx(b["name"]), hx(DTYPES[b["dt"]]), " ".join(map(str, b["shape"])),
-                                         " ".join(hx(d) for d in b["dims"]), " ".join(map(val_sexp, b["data"])))
+    return "(b %s %s (%s) (%s) (%s)%s)" % (hx(b["name"]), hx(DTYPES[b["dt"]]), " ".join(map(str, b["shape"])),
+                                           " ".join(hx(d) for d in b["dims"]), " ".join(map(val_sexp, b["data"])),
+                                           " S" if held_as_bytes(b) else "")
 
 
 def member_sexp(m):
@@ -145,7 +151,7 @@ def ds_sexp(spec):
 
 def as_array(b):
     dt = np_dtype(b["dt"])
-    if b["dt"] == "U" and zlib.crc32(repr((b["name"], b["data"][:4])).encode()) % 3 == 0:
+    if held_as_bytes(b):
         dt = "S8"       # the same strings held as bytes (what files and pydap's own parsers deliver); a function of the case
     return np.array(b["data"], dtype=dt).reshape(b["shape"]) if b["shape"] else np.array(b["data"][0], dtype=dt)
 
@@ -350,11 +356,18 @@ def gen_repeated_ce(rng, spec, valid=True):
         return None
     kind, v, b, path = rng.choice(cands)
     shape = list(b["shape"])
-    hs = [gen_hs_any(rng, shape, wide=True)]
-    for _ in range(rng.choice([1, 1, 1, 2])):
+    unit = rng.random() < 0.4      # all but the last hyperslab with stride 1: the composition is numpy's x[s1][s2]
+
+    def unit_strides(sl):
+        return tuple(slice(s.start, s.stop, 1) for s in sl) if unit else sl
+
+    hs = [unit_strides(gen_hs_any(rng, shape, wide=True))]
+    more = rng.choice([1, 1, 1, 2])
+    for i in range(more):
         src = compose_windows(shape, hs)
         shown = [len(range(*s.indices(n))) for s, n in zip(src, shape)]
-        hs.append(gen_hs_any(rng, shown))
+        nxt = gen_hs_any(rng, shown)
+        hs.append(nxt if i == more - 1 else unit_strides(nxt))
     if not valid:
         src = compose_windows(shape, hs[:-1])
         shown = [len(range(*s.indices(n))) for s, n in zip(src, shape)]
